@@ -211,3 +211,5 @@ def run(F, S, R, tier):
         else:
             R.bad("mustcall/startup/store", "init_store no longer reads both tip header and current epoch", [ist.where()])
     R.guard("startup", startup)
+    import common as _common
+    _common.effects(R, F, ['verdicts'])
